@@ -63,8 +63,9 @@ theorem blk_wf {s : State} (h : DataInv s) (j : Nat) : (blk s j).WF := by
     rw [this]; exact h.wf _ (List.getElem_mem hj)
   · have : s.blocks.getD j default = default := by simp [List.getD, List.getElem?_eq_none (by omega : s.blocks.length ≤ j)]
     rw [this]
-    refine ⟨by decide, by decide, Nat.le_refl _, fun _ => rfl, ?_, fun _ => rfl⟩
-    intro hk; cases hk
+    refine ⟨by decide, by decide, Nat.le_refl _, fun _ => rfl, ?_, fun _ => rfl, ?_⟩
+    · intro hk; cases hk
+    · intro hk; cases hk
 
 /-- The main theorem's data part: in a state satisfying the data invariant the delivered bytes are a prefix of the
     single-threaded output. -/
